@@ -32,6 +32,7 @@ type Engine struct {
 	fmtErrT  types.Type
 	env      map[string]string
 	maxprocs int
+	tier     string
 }
 
 type fnInfo struct {
@@ -641,7 +642,7 @@ func (x *Exec) panicString(v Value) string {
 		// try Error() method
 		func() {
 			defer func() { recover() }()
-			if m := x.eng.prog.LookupMethod(i.T, nil, "Error"); m != nil {
+			if m := x.eng.lookupMethodSafe(i.T, "Error"); m != nil {
 				r := x.callFunction(nil, m, []Value{i.V}, nil)
 				if s, ok := r.(Str); ok && s.B == nil {
 					v = Iface{T: types.Typ[types.String], V: s}
@@ -1155,10 +1156,30 @@ func (x *Exec) indexOp(fr *frame, instr *ssa.Index) Value {
 func (x *Exec) sliceOp(fr *frame, instr *ssa.Slice) Value {
 	xv := fr.get(instr.X)
 	var lo, hi, max int64 = 0, -1, -1
+	// capacity/length limit for symbolic bounds: out-of-range values take one panic path
+	limit := int64(-1)
+	switch xv := xv.(type) {
+	case Str:
+		limit = int64(xv.Len())
+	case Slice:
+		limit = int64(cap(xv.A))
+	case *Value:
+		if xv != nil {
+			if a, ok := (*xv).(Array); ok {
+				limit = int64(len(a))
+			}
+		}
+	}
 	getb := func(v ssa.Value, what string) int64 {
 		t := x.toInt64Term(fr.get(v).(*Term), v.Type())
 		if t.IsConst() {
 			return t.Sval()
+		}
+		if limit >= 0 {
+			inr := x.cx.Cmp("bvule", t, mkConst(64, uint64(limit)))
+			if !x.Decide(inr) {
+				x.goPanicRuntime(fmt.Sprintf("slice bounds out of range [symbolic %s] with capacity %d", what, limit))
+			}
 		}
 		return int64(x.Concretize(t, what))
 	}
@@ -1229,7 +1250,16 @@ func (x *Exec) makeSlice(fr *frame, instr *ssa.MakeSlice) Value {
 	n := x.concreteInt(lt, "make len")
 	c := n
 	if ct != lt {
-		c = x.concreteInt(ct, "make cap")
+		if ct.IsConst() {
+			c = ct.Sval()
+		} else {
+			// symbolic capacity with concrete length: the capacity only affects aliasing of later
+			// appends and cap(); approximate by "no spare capacity" after checking cap >= len.
+			if x.Decide(x.cx.Cmp("bvslt", ct, mkConst(64, uint64(n)))) {
+				x.goPanicRuntime("makeslice: cap out of range")
+			}
+			x.stubSeen["engine: symbolic make() capacity approximated by cap=len"] = true
+		}
 	}
 	if n < 0 || n > c {
 		x.goPanicRuntime("makeslice: len out of range")
@@ -1273,6 +1303,11 @@ func (x *Exec) checkAllocSize(t *Term, what string, isMapHint bool) {
 				x.abort(Timeout, "solver unknown on alloc bound")
 			}
 			if r == Sat {
+				// prefer a model whose size is large enough to be observable natively, small enough to run
+				pref := x.cx.And(x.cx.Cmp("bvsle", mkConst(64, 1<<24), t), x.cx.Cmp("bvsle", t, mkConst(64, 1<<25)))
+				if x.sol.Check(pref) == Sat {
+					big = pref
+				}
 				x.recordViolation("assert", "alloc-bound", fmt.Sprintf("%s can exceed allocation bound %d (size read from input)", what, x.allocBound), big)
 			} else {
 				x.assertsOK++
